@@ -5,62 +5,79 @@ From Coq Require Import ZArith Lia ZifyBool.
 Open Scope Z_scope.
 
 (* ---- one step without limits, and the fold ---- *)
-Definition lstep (fx : bool) (t : ptoken) (s : lstate) : lstate :=
+Definition lstep (fx cm : bool) (t : ptoken) (s : lstate) : lstate :=
   match pk t with
+  | KComment => s
   | KLBrace =>
-    let l := l_local s + 1 in
-    {| l_global := l_global s + 1; l_local := l; l_peak := (if l_peak s <? l then l else l_peak s);
-       l_fields := l_fields s; l_spread := false |}
+    let flush := starts_shorthand cm s in
+    let g0 := if flush then l_global s + l_peak s else l_global s in
+    let l0 := if flush then 0 else l_local s in
+    let p0 := if flush then 0 else l_peak s in
+    {| l_global := g0 + 1; l_local := l0 + 1; l_peak := (if p0 <? l0 + 1 then l0 + 1 else p0);
+       l_fields := l_fields s; l_spread := false; l_paren := l_paren s; l_open := false |}
   | KRBrace =>
     {| l_global := l_global s - 1; l_local := l_local s - 1; l_peak := l_peak s;
-       l_fields := l_fields s; l_spread := false |}
+       l_fields := l_fields s; l_spread := false; l_paren := l_paren s; l_open := true |}
+  | KLParen =>
+    {| l_global := l_global s; l_local := l_local s; l_peak := l_peak s;
+       l_fields := l_fields s; l_spread := l_spread s; l_paren := l_paren s + 1; l_open := false |}
+  | KRParen =>
+    {| l_global := l_global s; l_local := l_local s; l_peak := l_peak s;
+       l_fields := l_fields s; l_spread := l_spread s; l_paren := l_paren s - 1; l_open := false |}
   | KSpread =>
-    {| l_global := l_global s; l_local := l_local s; l_peak := l_peak s; l_fields := l_fields s; l_spread := true |}
+    {| l_global := l_global s; l_local := l_local s; l_peak := l_peak s;
+       l_fields := l_fields s; l_spread := true; l_paren := l_paren s; l_open := false |}
   | KIdent =>
     if is_def_kw (keyword_of (plit t)) && (negb fx || (l_local s <=? 0)) then
-      {| l_global := l_global s + l_peak s; l_local := 0; l_peak := 0; l_fields := l_fields s; l_spread := false |}
+      {| l_global := l_global s + l_peak s; l_local := 0; l_peak := 0;
+         l_fields := l_fields s; l_spread := false; l_paren := l_paren s; l_open := false |}
     else
       {| l_global := l_global s; l_local := l_local s; l_peak := l_peak s;
          l_fields := (if (0 <? l_local s) && negb (l_spread s) then l_fields s + 1 else l_fields s);
-         l_spread := false |}
-  | _ => s
+         l_spread := false; l_paren := l_paren s; l_open := false |}
+  | _ =>
+    {| l_global := l_global s; l_local := l_local s; l_peak := l_peak s;
+       l_fields := l_fields s; l_spread := l_spread s; l_paren := l_paren s; l_open := false |}
   end.
 
-Fixpoint lrun (fx : bool) (ts : list ptoken) (s : lstate) : lstate :=
-  match ts with [] => s | t :: r => lrun fx r (lstep fx t s) end.
+Fixpoint lrun (fx cm : bool) (ts : list ptoken) (s : lstate) : lstate :=
+  match ts with [] => s | t :: r => lrun fx cm r (lstep fx cm t s) end.
 
-Lemma lrun_app : forall fx a b s, lrun fx (a ++ b) s = lrun fx b (lrun fx a s).
+Lemma lrun_app : forall fx cm a b s, lrun fx cm (a ++ b) s = lrun fx cm b (lrun fx cm a s).
 Proof. induction a; simpl; intros; auto. Qed.
 
 (* a run that is accepted took no early exit: it is the fold *)
-Lemma lim_run_step_ok : forall fx L F t r s a b,
-  lim_run fx L F (t :: r) s = (LOk, a, b) -> lim_run fx L F r (lstep fx t s) = (LOk, a, b).
+Lemma lim_run_step_ok : forall fx cm L F t r s a b,
+  lim_run fx cm L F (t :: r) s = (LOk, a, b) -> lim_run fx cm L F r (lstep fx cm t s) = (LOk, a, b).
 Proof.
-  intros fx L F t r s a b H. cbn [lim_run] in H. unfold lstep.
+  intros fx cm L F t r s a b H. cbn [lim_run] in H. unfold lstep.
   destruct (pk t); try exact H.
   - (* ident *)
     destruct (is_def_kw (keyword_of (plit t)) && (negb fx || (l_local s <=? 0))); [exact H|].
     cbv zeta in H.
     destruct ((0 <? F) && (F <? (if (0 <? l_local s) && negb (l_spread s) then l_fields s + 1 else l_fields s))); [discriminate H|exact H].
   - (* lbrace *)
-    cbv zeta in H. destruct ((0 <? L) && (L <? l_global s + 1)); [discriminate H|exact H].
+    cbv zeta in H. cbv zeta.
+    match type of H with (if ?c then _ else _) = _ => destruct c end; [discriminate H|exact H].
 Qed.
 
-Lemma lim_run_app_ok : forall fx L F pre rest s a b,
-  lim_run fx L F (pre ++ rest) s = (LOk, a, b) -> lim_run fx L F rest (lrun fx pre s) = (LOk, a, b).
+Lemma lim_run_app_ok : forall fx cm L F pre rest s a b,
+  lim_run fx cm L F (pre ++ rest) s = (LOk, a, b) -> lim_run fx cm L F rest (lrun fx cm pre s) = (LOk, a, b).
 Proof.
   induction pre as [|t r IH]; intros rest s a b H; [exact H|].
   simpl. apply IH. apply lim_run_step_ok. exact H.
 Qed.
 
-Lemma lim_run_lbrace : forall fx L F t r s a b,
-  lim_run fx L F (t :: r) s = (LOk, a, b) -> pk t = KLBrace -> 0 < L -> l_global s + 1 <= L.
+(* the depth check at a brace is on the global depth AFTER the brace *)
+Lemma lim_run_lbrace : forall fx cm L F t r s a b,
+  lim_run fx cm L F (t :: r) s = (LOk, a, b) -> pk t = KLBrace -> 0 < L -> l_global (lstep fx cm t s) <= L.
 Proof.
-  intros fx L F t r s a b H Hk HL. cbn [lim_run] in H. rewrite Hk in H. cbv zeta in H.
-  destruct ((0 <? L) && (L <? l_global s + 1)) eqn:E; [discriminate H|]. lia.
+  intros fx cm L F t r s a b H Hk HL. cbn [lim_run] in H. unfold lstep. rewrite Hk in *. cbv zeta in *.
+  match type of H with (if ?c then _ else _) = _ => destruct c eqn:E end; [discriminate H|].
+  simpl. lia.
 Qed.
 
-Lemma lstep_fields_mono : forall fx t s, l_fields s <= l_fields (lstep fx t s).
+Lemma lstep_fields_mono : forall fx cm t s, l_fields s <= l_fields (lstep fx cm t s).
 Proof.
   intros. unfold lstep. destruct (pk t); simpl; try lia.
   destruct (is_def_kw (keyword_of (plit t)) && (negb fx || (l_local s <=? 0))); simpl; [lia|].
@@ -68,16 +85,15 @@ Proof.
 Qed.
 
 (* an accepted run never saw the field counter above the limit; its TotalFields is the final counter *)
-Lemma lim_run_fields : forall fx L F ts s a b,
-  lim_run fx L F ts s = (LOk, a, b) ->
-  b = l_fields (lrun fx ts s) /\ (0 < F -> l_fields s <= F -> b <= F).
+Lemma lim_run_fields : forall fx cm L F ts s a b,
+  lim_run fx cm L F ts s = (LOk, a, b) ->
+  b = l_fields (lrun fx cm ts s) /\ (0 < F -> l_fields s <= F -> b <= F).
 Proof.
   induction ts as [|t r IH]; intros s a b H.
   - simpl in H. inversion H; subst. simpl. split; [reflexivity|lia].
-  - pose proof (lim_run_step_ok _ _ _ _ _ _ _ _ H) as H'.
+  - pose proof (lim_run_step_ok _ _ _ _ _ _ _ _ _ H) as H'.
     destruct (IH _ _ _ H') as [E1 E2]. split; [exact E1|].
     intros HF Hs. apply E2; [exact HF|].
-    (* the step kept the counter within the limit, otherwise the run would have stopped *)
     cbn [lim_run] in H. unfold lstep.
     destruct (pk t); simpl; try exact Hs.
     destruct (is_def_kw (keyword_of (plit t)) && (negb fx || (l_local s <=? 0))); simpl; [exact Hs|].
@@ -86,42 +102,87 @@ Proof.
     lia.
 Qed.
 
+(* ---- parentheses: the counter moves by the net number of parentheses, whatever else happens ---- *)
+Definition pdelta (k : kind) : Z := match k with KLParen => 1 | KRParen => -1 | _ => 0 end.
+Fixpoint pnet (ts : list ptoken) : Z := match ts with [] => 0 | t :: r => pdelta (pk t) + pnet r end.
+Lemma pnet_app : forall a b, pnet (a ++ b) = pnet a + pnet b.
+Proof. induction a; simpl; intros; [lia|rewrite IHa; lia]. Qed.
+Lemma lstep_paren : forall fx cm t s, l_paren (lstep fx cm t s) = l_paren s + pdelta (pk t).
+Proof.
+  intros. unfold lstep. destruct (pk t); simpl; try lia.
+  destruct (is_def_kw (keyword_of (plit t)) && (negb fx || (l_local s <=? 0))); simpl; lia.
+Qed.
+Lemma lrun_paren : forall fx cm ts s, l_paren (lrun fx cm ts s) = l_paren s + pnet ts.
+Proof. induction ts; simpl; intros; [lia|]. rewrite IHts, lstep_paren. lia. Qed.
+
 (* ---- predicates on consumed token lists ---- *)
 
-(* state facts every consumed segment satisfies, for the fixed and the historical accounting alike *)
+(* state facts every consumed segment satisfies, for every version of the accounting: the global depth
+   does not fall, and neither does global depth + current peak (what TotalDepth reports) *)
 Definition StateOK (pre : list ptoken) : Prop :=
-  forall fx st, 0 <= l_peak st -> l_global st <= l_global (lrun fx pre st) /\ 0 <= l_peak (lrun fx pre st).
+  forall fx cm st, 0 <= l_peak st ->
+    l_global st <= l_global (lrun fx cm pre st) /\ 0 <= l_peak (lrun fx cm pre st) /\
+    l_global st + l_peak st <= l_global (lrun fx cm pre st) + l_peak (lrun fx cm pre st).
+
+(* inside a selection set (local depth >= 1) of the repaired accounting nothing resets: local and global
+   depth come back, the peak only grows *)
+Definition InOK (pre : list ptoken) : Prop :=
+  forall cm st, 1 <= l_local st ->
+    l_local (lrun true cm pre st) = l_local st /\ l_peak st <= l_peak (lrun true cm pre st) /\
+    l_global (lrun true cm pre st) = l_global st.
 
 (* arguments, values, directives, types, variable definitions: balanced braces, no spread *)
 Definition Plain (pre : list ptoken) : Prop :=
-  (forall st, 0 <= l_local st ->
-     l_local (lrun true pre st) = l_local st /\ l_fields st <= l_fields (lrun true pre st) /\
-     (l_spread st = false -> l_spread (lrun true pre st) = false))
-  /\ StateOK pre.
+  (forall cm st, 0 <= l_local st ->
+     l_local (lrun true cm pre st) = l_local st /\ l_fields st <= l_fields (lrun true cm pre st) /\
+     (l_spread st = false -> l_spread (lrun true cm pre st) = false))
+  /\ StateOK pre /\ InOK pre.
 
 (* depth half of the selection-level shapes: an accepted run that passes through [pre] has checked
    a brace at nesting [dep] above the global depth it entered with (nothing to say when dep = 0) *)
 Definition DepthOK (dep : Z) (pre : list ptoken) : Prop :=
-  (forall fx L F st rest a b, 0 < L -> 0 <= l_peak st -> 0 < dep ->
-    lim_run fx L F (pre ++ rest) st = (LOk, a, b) -> l_global st + dep <= L)
+  (forall fx cm L F st rest a b, 0 < L -> 0 <= l_peak st -> 0 < dep ->
+    lim_run fx cm L F (pre ++ rest) st = (LOk, a, b) -> l_global st + dep <= L)
   /\ StateOK pre.
+
+(* peak half (repaired accounting): passing through [pre] inside a selection set raises the peak to
+   the local depth + [dep] *)
+Definition PeakOK (dep : Z) (pre : list ptoken) : Prop :=
+  InOK pre /\
+  (forall cm st, 1 <= l_local st -> 0 < dep -> l_local st + dep <= l_peak (lrun true cm pre st)).
 
 (* the tokens of one selection, met inside a selection set (local depth >= 1, no pending spread) *)
 Definition FieldsOK (n : Z) (pre : list ptoken) : Prop :=
-  forall st, 1 <= l_local st -> l_spread st = false ->
-     l_local (lrun true pre st) = l_local st /\ l_spread (lrun true pre st) = false /\
-     l_fields st + n <= l_fields (lrun true pre st).
+  forall cm st, 1 <= l_local st -> l_spread st = false ->
+     l_local (lrun true cm pre st) = l_local st /\ l_spread (lrun true cm pre st) = false /\
+     l_fields st + n <= l_fields (lrun true cm pre st).
 Definition SelOK (s : selection) (pre : list ptoken) : Prop :=
-  FieldsOK (sel_fields s) pre /\ DepthOK (sel_depth s) pre.
+  FieldsOK (sel_fields s) pre /\ DepthOK (sel_depth s) pre /\ PeakOK (sel_depth s) pre.
 Definition SelsOK (l : list selection) (pre : list ptoken) : Prop :=
-  FieldsOK (sels_fields l) pre /\ DepthOK (sels_maxdepth l) pre.
+  FieldsOK (sels_fields l) pre /\ DepthOK (sels_maxdepth l) pre /\ PeakOK (sels_maxdepth l) pre.
+
+(* a selection set met at the top level (local depth 0): afterwards global + peak has grown by its depth,
+   counted from global + old peak when the brace started a new accounting period *)
+Definition TopOK (dep : Z) (pre : list ptoken) : Prop :=
+  forall cm st, l_local st = 0 -> 0 <= l_peak st ->
+    l_local (lrun true cm pre st) = 0 /\ 0 <= l_peak (lrun true cm pre st) /\
+    (0 < dep -> l_open (lrun true cm pre st) = true) /\
+    l_global st + dep <= l_global (lrun true cm pre st) + l_peak (lrun true cm pre st) /\
+    (starts_shorthand cm st = true ->
+       l_global st + l_peak st + dep <= l_global (lrun true cm pre st) + l_peak (lrun true cm pre st)).
+
+(* ... and when its brace starts a new accounting period, an accepted run has checked the cumulative depth *)
+Definition TopDepthOK (dep : Z) (pre : list ptoken) : Prop :=
+  forall cm L F st rest a b, 0 < L -> 0 <= l_peak st -> 0 < dep -> starts_shorthand cm st = true ->
+    lim_run true cm L F (pre ++ rest) st = (LOk, a, b) -> l_global st + l_peak st + dep <= L.
 
 (* a braced selection set, or nothing when [l] is empty; may follow a spread when non-empty *)
 Definition SetOK (l : list selection) (pre : list ptoken) : Prop :=
-  (forall st, 0 <= l_local st ->
-     l_local (lrun true pre st) = l_local st /\ l_fields st + sels_fields l <= l_fields (lrun true pre st) /\
-     (l <> [] \/ l_spread st = false -> l_spread (lrun true pre st) = false))
-  /\ DepthOK (selset_depth l) pre.
+  (forall cm st, 0 <= l_local st ->
+     l_local (lrun true cm pre st) = l_local st /\ l_fields st + sels_fields l <= l_fields (lrun true cm pre st) /\
+     (l <> [] \/ l_spread st = false -> l_spread (lrun true cm pre st) = false))
+  /\ DepthOK (selset_depth l) pre /\ PeakOK (selset_depth l) pre /\ TopOK (selset_depth l) pre
+  /\ TopDepthOK (selset_depth l) pre.
 
 (* ---- the nested fixpoints of Spec agree with the list-level functions ---- *)
 Lemma sel_fields_field : forall a n ar d sels, sel_fields (SField a n ar d sels) = 1 + sels_fields sels.
@@ -134,49 +195,104 @@ Lemma sel_depth_inline : forall tc d sels, sel_depth (SInline tc d sels) = selse
 Proof. intros. destruct sels; reflexivity. Qed.
 Lemma sels_maxdepth_nonneg : forall l, 0 <= sels_maxdepth l.
 Proof. induction l; simpl; lia. Qed.
+Lemma selset_depth_nonneg : forall l, 0 <= selset_depth l.
+Proof. intros. unfold selset_depth. destruct l; [lia|]. pose proof (sels_maxdepth_nonneg (s :: l)). lia. Qed.
 
-(* ---- closure lemmas: StateOK / Plain ---- *)
-Lemma lstep_peak_nonneg : forall fx t s, 0 <= l_peak s -> 0 <= l_peak (lstep fx t s).
+(* ---- single steps ---- *)
+Lemma lstep_peak_nonneg : forall fx cm t s, 0 <= l_peak s -> 0 <= l_peak (lstep fx cm t s).
 Proof.
   intros. unfold lstep. destruct (pk t); simpl; try lia.
   - destruct (is_def_kw (keyword_of (plit t)) && (negb fx || (l_local s <=? 0))); simpl; lia.
-  - destruct (l_peak s <? l_local s + 1) eqn:E; lia.
+  - destruct (starts_shorthand cm s); simpl;
+      repeat match goal with |- context [if ?c then _ else _] => destruct c eqn:? end; lia.
 Qed.
 
+(* an opening brace: global depth rises by at least one, global + peak does not fall *)
+Lemma lstep_lbrace : forall fx cm t s, pk t = KLBrace -> 0 <= l_peak s ->
+  l_global s + 1 <= l_global (lstep fx cm t s) /\
+  l_global s + l_peak s <= l_global (lstep fx cm t s) + l_peak (lstep fx cm t s) - 1.
+Proof.
+  intros fx cm t s Hk Hp. unfold lstep. rewrite Hk. cbv zeta.
+  destruct (starts_shorthand cm s); simpl;
+    repeat match goal with |- context [if ?c then _ else _] => destruct c eqn:? end; lia.
+Qed.
+(* inside a selection set the brace never starts a new period *)
+Lemma lstep_lbrace_in : forall fx cm t s, pk t = KLBrace -> 1 <= l_local s ->
+  lstep fx cm t s =
+  {| l_global := l_global s + 1; l_local := l_local s + 1;
+     l_peak := (if l_peak s <? l_local s + 1 then l_local s + 1 else l_peak s);
+     l_fields := l_fields s; l_spread := false; l_paren := l_paren s; l_open := false |}.
+Proof.
+  intros fx cm t s Hk Hl. unfold lstep. rewrite Hk. cbv zeta.
+  assert (E : starts_shorthand cm s = false).
+  { unfold starts_shorthand. replace (l_local s <=? 0) with false by lia. rewrite Bool.andb_false_r. reflexivity. }
+  rewrite E. reflexivity.
+Qed.
+Lemma lstep_rbrace : forall fx cm t s, pk t = KRBrace ->
+  lstep fx cm t s =
+  {| l_global := l_global s - 1; l_local := l_local s - 1; l_peak := l_peak s;
+     l_fields := l_fields s; l_spread := false; l_paren := l_paren s; l_open := true |}.
+Proof. intros. unfold lstep. rewrite H. reflexivity. Qed.
+
+(* ---- closure lemmas: StateOK ---- *)
 Lemma StateOK_nil : StateOK [].
-Proof. intros fx st H. simpl. lia. Qed.
+Proof. intros fx cm st H. simpl. lia. Qed.
 Lemma StateOK_app : forall a b, StateOK a -> StateOK b -> StateOK (a ++ b).
 Proof.
-  intros a b A B fx st H. rewrite lrun_app.
-  destruct (A fx st H) as (E1 & E2). destruct (B fx (lrun fx a st) E2) as (F1 & F2). split; lia.
+  intros a b A B fx cm st H. rewrite lrun_app.
+  destruct (A fx cm st H) as (E1 & E2 & E3). destruct (B fx cm (lrun fx cm a st) E2) as (F1 & F2 & F3). repeat split; lia.
 Qed.
 (* any token but a closing brace keeps the global depth from falling *)
 Lemma StateOK_tok : forall t, pk t <> KRBrace -> StateOK [t].
 Proof.
-  intros t Hk fx st H. simpl. split; [|apply lstep_peak_nonneg; exact H].
-  unfold lstep. destruct (pk t); simpl; try lia; try congruence.
-  destruct (is_def_kw (keyword_of (plit t)) && (negb fx || (l_local st <=? 0))); simpl; lia.
+  intros t Hk fx cm st H. simpl. destruct (pk t) eqn:Ek; try congruence;
+    try (unfold lstep; rewrite Ek; simpl; lia).
+  - unfold lstep. rewrite Ek. destruct (is_def_kw (keyword_of (plit t)) && (negb fx || (l_local st <=? 0))); simpl; lia.
+  - pose proof (lstep_lbrace fx cm t st Ek H). pose proof (lstep_peak_nonneg fx cm t st H). lia.
 Qed.
 Lemma StateOK_braces : forall o c mid, pk o = KLBrace -> pk c = KRBrace -> StateOK mid -> StateOK (o :: mid ++ [c]).
 Proof.
-  intros o c mid Ho Hc M fx st H. change (o :: mid ++ [c]) with ([o] ++ mid ++ [c]). rewrite !lrun_app. simpl.
-  set (s1 := lstep fx o st).
-  assert (S1 : l_global s1 = l_global st + 1 /\ 0 <= l_peak s1).
-  { subst s1. split; [unfold lstep; rewrite Ho; reflexivity|apply lstep_peak_nonneg; exact H]. }
-  destruct S1 as (S1a & S1b).
-  destruct (M fx s1 S1b) as (E1 & E2).
-  unfold lstep. rewrite Hc. simpl. split; lia.
+  intros o c mid Ho Hc M fx cm st H. change (o :: mid ++ [c]) with ([o] ++ mid ++ [c]). rewrite !lrun_app. cbn [lrun].
+  pose proof (lstep_lbrace fx cm o st Ho H) as (A1 & A2).
+  pose proof (lstep_peak_nonneg fx cm o st H) as A3.
+  set (s1 := lstep fx cm o st) in *.
+  destruct (M fx cm s1 A3) as (E1 & E2 & E3).
+  rewrite (lstep_rbrace _ _ _ _ Hc). cbn [l_global l_local l_peak l_fields l_spread l_paren l_open]. lia.
 Qed.
 
+(* ---- closure lemmas: InOK ---- *)
+Lemma InOK_nil : InOK [].
+Proof. intros cm st H. simpl. lia. Qed.
+Lemma InOK_app : forall a b, InOK a -> InOK b -> InOK (a ++ b).
+Proof.
+  intros a b A B cm st H. rewrite lrun_app.
+  destruct (A cm st H) as (E1 & E2 & E3). destruct (B cm (lrun true cm a st)) as (F1 & F2 & F3); [lia|]. repeat split; lia.
+Qed.
+Lemma InOK_tok : forall t, pk t <> KLBrace -> pk t <> KRBrace -> InOK [t].
+Proof.
+  intros t H1 H2 cm st H. simpl. unfold lstep. destruct (pk t); try congruence; simpl; try lia.
+  replace (l_local st <=? 0) with false by lia. rewrite Bool.andb_false_r. simpl. lia.
+Qed.
+Lemma InOK_braces : forall o c mid, pk o = KLBrace -> pk c = KRBrace -> InOK mid -> InOK (o :: mid ++ [c]).
+Proof.
+  intros o c mid Ho Hc M cm st H. change (o :: mid ++ [c]) with ([o] ++ mid ++ [c]). rewrite !lrun_app. cbn [lrun].
+  rewrite (lstep_lbrace_in _ _ _ _ Ho H).
+  match goal with |- context [lrun true cm mid ?s] => set (s1 := s) end.
+  destruct (M cm s1) as (E1 & E2 & E3); [subst s1; simpl; lia|].
+  rewrite (lstep_rbrace _ _ _ _ Hc). cbn [l_global l_local l_peak l_fields l_spread l_paren l_open]. subst s1. simpl in *.
+  destruct (l_peak st <? l_local st + 1) eqn:E; lia.
+Qed.
+
+(* ---- closure lemmas: Plain ---- *)
 Lemma Plain_nil : Plain [].
-Proof. split; [intros; simpl; repeat split; auto; lia|apply StateOK_nil]. Qed.
+Proof. split; [intros; simpl; repeat split; auto; lia|split; [apply StateOK_nil|apply InOK_nil]]. Qed.
 
 Lemma Plain_app : forall a b, Plain a -> Plain b -> Plain (a ++ b).
 Proof.
-  intros a b [A1 A2] [B1 B2]. split; [|apply StateOK_app; assumption].
-  intros st H. rewrite lrun_app.
-  destruct (A1 st H) as (E1 & E2 & E3).
-  destruct (B1 (lrun true a st)) as (F1 & F2 & F3); [lia|].
+  intros a b (A1 & A2 & A3) (B1 & B2 & B3). split; [|split; [apply StateOK_app; assumption|apply InOK_app; assumption]].
+  intros cm st H. rewrite lrun_app.
+  destruct (A1 cm st H) as (E1 & E2 & E3).
+  destruct (B1 cm (lrun true cm a st)) as (F1 & F2 & F3); [lia|].
   repeat split; try lia; auto.
 Qed.
 
@@ -185,12 +301,13 @@ Definition plain_kind (k : kind) : bool :=
 
 Lemma Plain_tok : forall t, plain_kind (pk t) = true -> Plain [t].
 Proof.
-  intros t Hk. split.
-  - intros st H. simpl. unfold lstep. destruct (pk t); try discriminate Hk; simpl; try (repeat split; auto; lia).
+  intros t Hk. split; [|split].
+  - intros cm st H. simpl. unfold lstep. destruct (pk t); try discriminate Hk; simpl; try (repeat split; auto; lia).
     destruct (is_def_kw (keyword_of (plit t)) && (l_local st <=? 0)) eqn:E; simpl.
     + apply andb_prop in E. destruct E as [_ E]. repeat split; auto; lia.
     + destruct ((0 <? l_local st) && negb (l_spread st)); repeat split; auto; lia.
   - apply StateOK_tok. destruct (pk t); try discriminate Hk; congruence.
+  - apply InOK_tok; destruct (pk t); try discriminate Hk; congruence.
 Qed.
 
 Lemma Plain_cons : forall t r, plain_kind (pk t) = true -> Plain r -> Plain (t :: r).
@@ -198,44 +315,39 @@ Proof. intros. change (t :: r) with ([t] ++ r). apply Plain_app; [apply Plain_to
 
 Lemma Plain_braces : forall o c mid, pk o = KLBrace -> pk c = KRBrace -> Plain mid -> Plain (o :: mid ++ [c]).
 Proof.
-  intros o c mid Ho Hc [M1 M2]. split; [|apply StateOK_braces; assumption].
-  intros st H. change (o :: mid ++ [c]) with ([o] ++ mid ++ [c]). rewrite !lrun_app. simpl.
-  set (s1 := lstep true o st).
+  intros o c mid Ho Hc (M1 & M2 & M3). split; [|split; [apply StateOK_braces; assumption|apply InOK_braces; assumption]].
+  intros cm st H. change (o :: mid ++ [c]) with ([o] ++ mid ++ [c]). rewrite !lrun_app. cbn [lrun].
+  set (s1 := lstep true cm o st).
   assert (S1 : l_local s1 = l_local st + 1 /\ l_fields s1 = l_fields st /\ l_spread s1 = false).
-  { subst s1. unfold lstep. rewrite Ho. simpl. auto. }
+  { subst s1. unfold lstep. rewrite Ho. cbv zeta. unfold starts_shorthand.
+    destruct (cm && (l_local st <=? 0) && (l_paren st <=? 0) && l_open st) eqn:E; simpl; [|auto].
+    repeat split; auto. lia. }
   destruct S1 as (S1a & S1b & S1c).
-  destruct (M1 s1) as (E1 & E2 & E3); [lia|].
-  unfold lstep. rewrite Hc. simpl. repeat split; try lia; auto.
+  destruct (M1 cm s1) as (E1 & E2 & E3); [lia|].
+  rewrite (lstep_rbrace _ _ _ _ Hc). cbn [l_global l_local l_peak l_fields l_spread l_paren l_open]. repeat split; try lia; auto.
 Qed.
 
 (* ---- closure lemmas: depth ---- *)
 Lemma DepthOK_state : forall pre, StateOK pre -> DepthOK 0 pre.
 Proof. intros pre H. split; [intros; lia|exact H]. Qed.
 
-(* a segment with nothing to check, followed by one that demands [dep] *)
 Lemma DepthOK_after : forall a b dep, StateOK a -> DepthOK dep b -> DepthOK dep (a ++ b).
 Proof.
   intros a b dep A [B1 B2]. split; [|apply StateOK_app; assumption].
-  intros fx L F st rest x y HL Hp Hd H.
+  intros fx cm L F st rest x y HL Hp Hd H.
   rewrite <- app_assoc in H. apply lim_run_app_ok in H.
-  destruct (A fx st Hp) as (E1 & E2).
-  specialize (B1 fx L F (lrun fx a st) rest x y HL E2 Hd H). lia.
-Qed.
-Lemma DepthOK_before : forall a b dep, DepthOK dep a -> StateOK b -> DepthOK dep (a ++ b).
-Proof.
-  intros a b dep [A1 A2] B. split; [|apply StateOK_app; assumption].
-  intros fx L F st rest x y HL Hp Hd H.
-  rewrite <- app_assoc in H. eapply A1; eassumption.
+  destruct (A fx cm st Hp) as (E1 & E2 & _).
+  specialize (B1 fx cm L F (lrun fx cm a st) rest x y HL E2 Hd H). lia.
 Qed.
 Lemma DepthOK_max : forall a b da db, DepthOK da a -> DepthOK db b -> DepthOK (Z.max da db) (a ++ b).
 Proof.
   intros a b da db [A1 A2] [B1 B2]. split; [|apply StateOK_app; assumption].
-  intros fx L F st rest x y HL Hp Hd H.
+  intros fx cm L F st rest x y HL Hp Hd H.
   rewrite <- app_assoc in H.
   assert (Ha : 0 < da -> l_global st + da <= L) by (intro; eapply A1; eassumption).
-  apply lim_run_app_ok in H. destruct (A2 fx st Hp) as (E1 & E2).
+  apply lim_run_app_ok in H. destruct (A2 fx cm st Hp) as (E1 & E2 & _).
   assert (Hb : 0 < db -> l_global st + db <= L).
-  { intro Hdb. specialize (B1 fx L F (lrun fx a st) rest x y HL E2 Hdb H). lia. }
+  { intro Hdb. specialize (B1 fx cm L F (lrun fx cm a st) rest x y HL E2 Hdb H). lia. }
   lia.
 Qed.
 
@@ -244,37 +356,71 @@ Lemma DepthOK_braces : forall o c body dep, pk o = KLBrace -> pk c = KRBrace -> 
   DepthOK dep body -> DepthOK (1 + dep) (o :: body ++ [c]).
 Proof.
   intros o c body dep Ho Hc Hdep [B1 B2]. split; [|apply StateOK_braces; assumption].
-  intros fx L F st rest x y HL Hp Hd H.
-  pose proof (lim_run_lbrace _ _ _ _ _ _ _ _ H Ho HL) as Hb.
+  intros fx cm L F st rest x y HL Hp Hd H.
+  pose proof (lim_run_lbrace _ _ _ _ _ _ _ _ _ H Ho HL) as Hb.
+  pose proof (lstep_lbrace fx cm o st Ho Hp) as (A1 & A2).
+  pose proof (lstep_peak_nonneg fx cm o st Hp) as A3.
   simpl in H. apply lim_run_step_ok in H.
-  assert (Hs : l_global (lstep fx o st) = l_global st + 1 /\ 0 <= l_peak (lstep fx o st)).
-  { split; [unfold lstep; rewrite Ho; reflexivity|apply lstep_peak_nonneg; exact Hp]. }
-  destruct Hs as (Hs1 & Hs2).
   destruct (Z.eq_dec dep 0) as [->|Hn]; [lia|].
   rewrite <- app_assoc in H.
-  specialize (B1 fx L F (lstep fx o st) ([c] ++ rest) x y HL Hs2 ltac:(lia) H). lia.
+  specialize (B1 fx cm L F (lstep fx cm o st) ([c] ++ rest) x y HL A3 ltac:(lia) H). lia.
+Qed.
+
+(* ---- closure lemmas: peak ---- *)
+Lemma PeakOK_in : forall pre, InOK pre -> PeakOK 0 pre.
+Proof. intros pre H. split; [exact H|intros; lia]. Qed.
+Lemma PeakOK_after : forall a b dep, InOK a -> PeakOK dep b -> PeakOK dep (a ++ b).
+Proof.
+  intros a b dep A [B1 B2]. split; [apply InOK_app; assumption|].
+  intros cm st Hl Hd. rewrite lrun_app. destruct (A cm st Hl) as (E1 & E2 & E3).
+  specialize (B2 cm (lrun true cm a st) ltac:(lia) Hd). lia.
+Qed.
+Lemma PeakOK_max : forall a b da db, PeakOK da a -> PeakOK db b -> PeakOK (Z.max da db) (a ++ b).
+Proof.
+  intros a b da db [A1 A2] [B1 B2]. split; [apply InOK_app; assumption|].
+  intros cm st Hl Hd. rewrite lrun_app. destruct (A1 cm st Hl) as (E1 & E2 & E3).
+  destruct (B1 cm (lrun true cm a st) ltac:(lia)) as (F1 & F2 & F3).
+  assert (Ha : 0 < da -> l_local st + da <= l_peak (lrun true cm a st)) by (intro; apply A2; assumption).
+  assert (Hb : 0 < db -> l_local st + db <= l_peak (lrun true cm b (lrun true cm a st))).
+  { intro Hdb. specialize (B2 cm (lrun true cm a st) ltac:(lia) Hdb). lia. }
+  lia.
+Qed.
+Lemma PeakOK_braces : forall o c body dep, pk o = KLBrace -> pk c = KRBrace -> 0 <= dep ->
+  PeakOK dep body -> PeakOK (1 + dep) (o :: body ++ [c]).
+Proof.
+  intros o c body dep Ho Hc Hdep [B1 B2]. split; [apply InOK_braces; assumption|].
+  intros cm st Hl Hd. change (o :: body ++ [c]) with ([o] ++ body ++ [c]). rewrite !lrun_app. cbn [lrun].
+  rewrite (lstep_lbrace_in _ _ _ _ Ho Hl).
+  match goal with |- context [lrun true cm body ?s] => set (s1 := s) end.
+  assert (S1 : l_local s1 = l_local st + 1 /\ l_local st + 1 <= l_peak s1).
+  { subst s1. simpl. destruct (l_peak st <? l_local st + 1) eqn:E; lia. }
+  destruct S1 as (S1a & S1b). clearbody s1.
+  destruct (B1 cm s1 ltac:(lia)) as (E1 & E2 & E3).
+  rewrite (lstep_rbrace _ _ _ _ Hc). cbn [l_global l_local l_peak l_fields l_spread l_paren l_open].
+  destruct (Z.eq_dec dep 0) as [->|Hn]; [lia|].
+  specialize (B2 cm s1 ltac:(lia) ltac:(lia)). lia.
 Qed.
 
 (* ---- closure lemmas: fields ---- *)
 Lemma FieldsOK_nil : FieldsOK 0 [].
-Proof. intros st H1 H2. simpl. repeat split; auto; lia. Qed.
+Proof. intros cm st H1 H2. simpl. repeat split; auto; lia. Qed.
 Lemma FieldsOK_app : forall a b na nb, FieldsOK na a -> FieldsOK nb b -> FieldsOK (na + nb) (a ++ b).
 Proof.
-  intros a b na nb A B st H1 H2. rewrite lrun_app.
-  destruct (A st H1 H2) as (E1 & E2 & E3).
-  destruct (B (lrun true a st)) as (F1 & F2 & F3); [lia|assumption|].
+  intros a b na nb A B cm st H1 H2. rewrite lrun_app.
+  destruct (A cm st H1 H2) as (E1 & E2 & E3).
+  destruct (B cm (lrun true cm a st)) as (F1 & F2 & F3); [lia|assumption|].
   repeat split; try lia; try assumption.
 Qed.
 Lemma FieldsOK_weaken : forall a n m, m <= n -> FieldsOK n a -> FieldsOK m a.
-Proof. intros a n m H A st H1 H2. destruct (A st H1 H2) as (E1 & E2 & E3). repeat split; auto; lia. Qed.
+Proof. intros a n m H A cm st H1 H2. destruct (A cm st H1 H2) as (E1 & E2 & E3). repeat split; auto; lia. Qed.
 Lemma FieldsOK_plain : forall a, Plain a -> FieldsOK 0 a.
 Proof.
-  intros a [A1 _] st H1 H2. destruct (A1 st) as (E1 & E2 & E3); [lia|]. repeat split; auto; lia.
+  intros a [A1 _] cm st H1 H2. destruct (A1 cm st) as (E1 & E2 & E3); [lia|]. repeat split; auto; lia.
 Qed.
 (* an identifier inside a selection set, with no pending spread, is counted -- whatever it spells *)
 Lemma FieldsOK_ident : forall t, pk t = KIdent -> FieldsOK 1 [t].
 Proof.
-  intros t Hk st H1 H2. simpl. unfold lstep. rewrite Hk.
+  intros t Hk cm st H1 H2. simpl. unfold lstep. rewrite Hk.
   replace (l_local st <=? 0) with false by lia. rewrite H2.
   replace (0 <? l_local st) with true by lia.
   rewrite Bool.andb_false_r. simpl. repeat split; auto; lia.
@@ -283,74 +429,115 @@ Qed.
 Lemma FieldsOK_spread_ident : forall s mid t, pk s = KSpread -> pk t = KIdent ->
   (forall x, In x mid -> pk x = KAt) -> FieldsOK 0 (s :: mid ++ [t]).
 Proof.
-  intros s mid t Hs Ht Hmid st H1 H2.
-  change (s :: mid ++ [t]) with ([s] ++ mid ++ [t]). rewrite !lrun_app. simpl.
-  set (s1 := lstep true s st).
+  intros s mid t Hs Ht Hmid cm st H1 H2.
+  change (s :: mid ++ [t]) with ([s] ++ mid ++ [t]). rewrite !lrun_app. cbn [lrun].
+  set (s1 := lstep true cm s st).
   assert (S1 : l_local s1 = l_local st /\ l_fields s1 = l_fields st /\ l_spread s1 = true).
   { subst s1. unfold lstep. rewrite Hs. simpl. auto. }
-  assert (S2 : lrun true mid s1 = s1).
-  { clear S1. generalize s1. induction mid as [|x r IH]; intro s0; [reflexivity|].
-    simpl. assert (E : lstep true x s0 = s0) by (unfold lstep; rewrite (Hmid x (or_introl eq_refl)); reflexivity).
-    rewrite E. apply IH. intros y Hy. apply Hmid. right. exact Hy. }
-  rewrite S2. destruct S1 as (A & B & C).
-  unfold lstep. rewrite Ht. rewrite A. replace (l_local st <=? 0) with false by lia.
-  rewrite Bool.andb_false_r. simpl. rewrite C. rewrite Bool.andb_false_r. simpl. repeat split; auto; lia.
+  assert (S2 : l_local (lrun true cm mid s1) = l_local s1 /\ l_fields (lrun true cm mid s1) = l_fields s1 /\
+               l_spread (lrun true cm mid s1) = l_spread s1).
+  { clear S1. generalize s1. induction mid as [|x r IH]; intro s0; [auto|].
+    simpl. destruct (IH (fun y Hy => Hmid y (or_intror Hy)) (lstep true cm x s0)) as (I1 & I2 & I3).
+    rewrite I1, I2, I3. unfold lstep. rewrite (Hmid x (or_introl eq_refl)). simpl. auto. }
+  destruct S1 as (A & B & C). destruct S2 as (A2 & B2 & C2).
+  unfold lstep. rewrite Ht. rewrite A2, A, C2, C, B2, B. replace (l_local st <=? 0) with false by lia.
+  rewrite Bool.andb_false_r. simpl. rewrite Bool.andb_false_r. simpl. repeat split; auto; lia.
 Qed.
+
+(* ---- selection sets ---- *)
+Lemma TopOK_none : TopOK 0 [].
+Proof. intros cm st Hl Hp. simpl. repeat split; try lia. Qed.
 
 Lemma SetOK_none : SetOK [] [].
 Proof.
-  split; [|apply DepthOK_state; apply StateOK_nil].
-  intros st H. simpl. repeat split; try lia. intros [E|E]; [congruence|exact E].
+  split; [|split; [apply DepthOK_state; apply StateOK_nil|split; [apply PeakOK_in; apply InOK_nil|split; [apply TopOK_none|]]]].
+  - intros cm st H. simpl. repeat split; try lia. intros [E|E]; [congruence|exact E].
+  - intros cm L F st rest a b HL Hp Hd. simpl in Hd. lia.
 Qed.
 
 Lemma SetOK_some : forall o c body l, l <> [] -> pk o = KLBrace -> pk c = KRBrace ->
   SelsOK l body -> SetOK l (o :: body ++ [c]).
 Proof.
-  intros o c body l Hl Ho Hc [B1 B2]. split.
-  - intros st H. change (o :: body ++ [c]) with ([o] ++ body ++ [c]). rewrite !lrun_app. simpl.
-    set (s1 := lstep true o st).
+  intros o c body l Hl Ho Hc (B1 & B2 & B3).
+  assert (Hsd : selset_depth l = 1 + sels_maxdepth l) by (unfold selset_depth; destruct l; [congruence|reflexivity]).
+  pose proof (sels_maxdepth_nonneg l) as Hnn.
+  split; [|split; [|split; [|split]]].
+  - intros cm st H. change (o :: body ++ [c]) with ([o] ++ body ++ [c]). rewrite !lrun_app. cbn [lrun].
+    set (s1 := lstep true cm o st).
     assert (S1 : l_local s1 = l_local st + 1 /\ l_fields s1 = l_fields st /\ l_spread s1 = false).
-    { subst s1. unfold lstep. rewrite Ho. simpl. auto. }
+    { subst s1. unfold lstep. rewrite Ho. cbv zeta. unfold starts_shorthand.
+      destruct (cm && (l_local st <=? 0) && (l_paren st <=? 0) && l_open st) eqn:E; simpl; [|auto].
+      repeat split; auto. lia. }
     destruct S1 as (S1a & S1b & S1c).
-    destruct (B1 s1) as (E1 & E2 & E3); [lia|assumption|].
-    unfold lstep. rewrite Hc. simpl. repeat split; try lia; auto.
-  - unfold selset_depth. destruct l; [congruence|].
-    apply DepthOK_braces; try assumption. apply sels_maxdepth_nonneg.
+    destruct (B1 cm s1) as (E1 & E2 & E3); [lia|assumption|].
+    rewrite (lstep_rbrace _ _ _ _ Hc). cbn [l_global l_local l_peak l_fields l_spread l_paren l_open]. repeat split; try lia; auto.
+  - rewrite Hsd. apply DepthOK_braces; assumption.
+  - rewrite Hsd. apply PeakOK_braces; assumption.
+  - (* at the top level *)
+    rewrite Hsd. destruct B3 as [I1 I2].
+    intros cm st Hl0 Hp. change (o :: body ++ [c]) with ([o] ++ body ++ [c]). rewrite !lrun_app. cbn [lrun].
+    set (s1 := lstep true cm o st).
+    assert (S1 : l_local s1 = 1 /\ 1 <= l_peak s1 /\
+                 l_global st + 1 <= l_global s1 /\
+                 (starts_shorthand cm st = true -> l_global s1 = l_global st + l_peak st + 1)).
+    { subst s1. unfold lstep. rewrite Ho. cbv zeta.
+      destruct (starts_shorthand cm st); simpl;
+        repeat match goal with |- context [if ?cnd then _ else _] => destruct cnd eqn:? end; repeat split; try lia; intro; try lia; discriminate. }
+    destruct S1 as (S1a & S1b & S1c & S1d). clearbody s1.
+    destruct (I1 cm s1 ltac:(lia)) as (E1 & E2 & E3).
+    assert (E4 : 1 + sels_maxdepth l <= l_peak (lrun true cm body s1)).
+    { destruct (Z.eq_dec (sels_maxdepth l) 0) as [->|Hn]; [lia|].
+      specialize (I2 cm s1 ltac:(lia) ltac:(lia)). lia. }
+    rewrite (lstep_rbrace _ _ _ _ Hc). cbn [l_global l_local l_peak l_fields l_spread l_paren l_open].
+    repeat split; try lia; try (intro Hs; specialize (S1d Hs); lia).
+  - (* the cumulative check at a brace that starts a new period *)
+    rewrite Hsd. destruct B2 as [D1 D2].
+    intros cm L F st rest a b HL Hp Hd Hs H.
+    pose proof (lim_run_lbrace _ _ _ _ _ _ _ _ _ H Ho HL) as Hb.
+    pose proof (lstep_peak_nonneg true cm o st Hp) as A3.
+    assert (Hg : l_global (lstep true cm o st) = l_global st + l_peak st + 1).
+    { unfold lstep. rewrite Ho. cbv zeta. rewrite Hs. reflexivity. }
+    change ((o :: body ++ [c]) ++ rest) with (o :: (body ++ [c]) ++ rest) in H. apply lim_run_step_ok in H.
+    destruct (Z.eq_dec (sels_maxdepth l) 0) as [E0|Hn]; [lia|].
+    rewrite <- app_assoc in H.
+    specialize (D1 true cm L F (lstep true cm o st) ([c] ++ rest) a b HL A3 ltac:(lia) H). lia.
 Qed.
 
 Lemma SelsOK_nil : SelsOK [] [].
-Proof. split; [apply FieldsOK_nil|apply DepthOK_state; apply StateOK_nil]. Qed.
+Proof. split; [apply FieldsOK_nil|split; [apply DepthOK_state; apply StateOK_nil|apply PeakOK_in; apply InOK_nil]]. Qed.
 Lemma SelsOK_cons : forall x r p1 p2, SelOK x p1 -> SelsOK r p2 -> SelsOK (x :: r) (p1 ++ p2).
 Proof.
-  intros x r p1 p2 [A1 A2] [B1 B2]. split; simpl.
+  intros x r p1 p2 (A1 & A2 & A3) (B1 & B2 & B3). split; [|split]; simpl.
   - apply FieldsOK_app; assumption.
   - apply DepthOK_max; assumption.
+  - apply PeakOK_max; assumption.
 Qed.
 
-(* fields of a set, read inside a selection set after possibly a spread-free prefix *)
 Lemma SetOK_fields : forall l sub, SetOK l sub -> FieldsOK (sels_fields l) sub.
 Proof.
-  intros l sub [S1 _] st H1 H2. destruct (S1 st) as (E1 & E2 & E3); [lia|].
+  intros l sub [S1 _] cm st H1 H2. destruct (S1 cm st) as (E1 & E2 & E3); [lia|].
   repeat split; auto.
 Qed.
 
 (* head ++ (arguments, directives) ++ optional set *)
 Lemma SelOK_field : forall hd mid sub alias nm args dirs sels,
-  FieldsOK 1 hd -> StateOK hd -> Plain mid -> SetOK sels sub ->
+  FieldsOK 1 hd -> Plain hd -> Plain mid -> SetOK sels sub ->
   SelOK (SField alias nm args dirs sels) (hd ++ mid ++ sub).
 Proof.
-  intros hd mid sub alias nm args dirs sels H1 H2 Hm Hs. split.
+  intros hd mid sub alias nm args dirs sels H1 H2 Hm Hs. split; [|split].
   - rewrite sel_fields_field.
     replace (1 + sels_fields sels) with (1 + (0 + sels_fields sels)) by lia.
     apply FieldsOK_app; [assumption|]. apply FieldsOK_app; [apply FieldsOK_plain; assumption|apply SetOK_fields; assumption].
-  - rewrite sel_depth_field. destruct Hs as [_ Hd].
-    apply DepthOK_after; [assumption|]. apply DepthOK_after; [apply Hm|assumption].
+  - rewrite sel_depth_field. destruct Hs as (_ & Hd & _).
+    apply DepthOK_after; [apply H2|]. apply DepthOK_after; [apply Hm|assumption].
+  - rewrite sel_depth_field. destruct Hs as (_ & _ & Hp & _).
+    apply PeakOK_after; [apply H2|]. apply PeakOK_after; [apply Hm|assumption].
 Qed.
 
 Lemma SelOK_spread : forall s t mid nm dirs, pk s = KSpread -> pk t = KIdent -> Plain mid ->
   SelOK (SSpread nm dirs) (s :: t :: mid).
 Proof.
-  intros s t mid nm dirs Hs Ht Hm. split.
+  intros s t mid nm dirs Hs Ht Hm. split; [|split].
   - simpl sel_fields. change (s :: t :: mid) with ((s :: [] ++ [t]) ++ mid).
     replace 0 with (0 + 0) by lia. apply FieldsOK_app.
     + apply FieldsOK_spread_ident; try assumption. intros x [].
@@ -359,6 +546,10 @@ Proof.
     change (s :: t :: mid) with ([s] ++ [t] ++ mid).
     apply StateOK_app; [apply StateOK_tok; congruence|].
     apply StateOK_app; [apply StateOK_tok; congruence|apply Hm].
+  - simpl sel_depth. apply PeakOK_in.
+    change (s :: t :: mid) with ([s] ++ [t] ++ mid).
+    apply InOK_app; [apply InOK_tok; congruence|].
+    apply InOK_app; [apply InOK_tok; congruence|apply Hm].
 Qed.
 
 (* "..." then: "on" Type | "@" name | nothing; then plain rest; then the set.  [hd] is what follows
@@ -369,34 +560,45 @@ Lemma SelOK_inline : forall s hd mid sub tc dirs sels, pk s = KSpread ->
   Plain mid -> SetOK sels sub ->
   SelOK (SInline tc dirs sels) (s :: hd ++ mid ++ sub).
 Proof.
-  intros s hd mid sub tc dirs sels Hs Hhd Hm [S1 S2]. split.
+  intros s hd mid sub tc dirs sels Hs Hhd Hm (S1 & S2 & S3 & S4 & S5).
+  assert (Hhd2 : StateOK hd /\ InOK hd).
+  { destruct Hhd as [(-> & _)|(ats & t & -> & Ht & Hats)]; [split; [apply StateOK_nil|apply InOK_nil]|].
+    split.
+    - apply StateOK_app; [|apply StateOK_tok; congruence].
+      induction ats as [|x r IH]; [apply StateOK_nil|].
+      change (x :: r) with ([x] ++ r). apply StateOK_app.
+      + apply StateOK_tok. rewrite (Hats x (or_introl eq_refl)). congruence.
+      + apply IH. intros y Hy. apply Hats. right. exact Hy.
+    - apply InOK_app; [|apply InOK_tok; congruence].
+      induction ats as [|x r IH]; [apply InOK_nil|].
+      change (x :: r) with ([x] ++ r). apply InOK_app.
+      + apply InOK_tok; rewrite (Hats x (or_introl eq_refl)); congruence.
+      + apply IH. intros y Hy. apply Hats. right. exact Hy. }
+  destruct Hhd2 as [Hst Hin].
+  split; [|split].
   - rewrite sel_fields_inline. destruct Hhd as [(-> & -> & Hne)|(ats & t & -> & Ht & Hats)].
-    + (* spread directly followed by the set's brace *)
-      simpl. intros st H1 H2. simpl.
-      set (s1 := lstep true s st).
+    + simpl. intros cm st H1 H2. simpl.
+      set (s1 := lstep true cm s st).
       assert (A : l_local s1 = l_local st /\ l_fields s1 = l_fields st).
       { subst s1. unfold lstep. rewrite Hs. simpl. auto. }
-      destruct (S1 s1) as (E1 & E2 & E3); [lia|].
+      destruct (S1 cm s1) as (E1 & E2 & E3); [lia|].
       repeat split; try lia. apply E3. left. assumption.
     + replace (sels_fields sels) with (0 + (0 + sels_fields sels)) by lia.
       change (s :: (ats ++ [t]) ++ mid ++ sub) with ((s :: ats ++ [t]) ++ mid ++ sub).
       apply FieldsOK_app; [apply FieldsOK_spread_ident; assumption|].
-      apply FieldsOK_app; [apply FieldsOK_plain; assumption|apply SetOK_fields; split; assumption].
+      apply FieldsOK_app; [apply FieldsOK_plain; assumption|apply SetOK_fields; exact (conj S1 (conj S2 (conj S3 (conj S4 S5))))].
   - rewrite sel_depth_inline.
     change (s :: hd ++ mid ++ sub) with ([s] ++ hd ++ mid ++ sub).
     apply DepthOK_after; [apply StateOK_tok; congruence|].
-    apply DepthOK_after.
-    { destruct Hhd as [(-> & _)|(ats & t & -> & Ht & Hats)]; [apply StateOK_nil|].
-      apply StateOK_app; [|apply StateOK_tok; congruence].
-      induction ats as [|x r IH]; [apply StateOK_nil|].
-      change (x :: r) with ([x] ++ r). apply StateOK_app.
-      - apply StateOK_tok. rewrite (Hats x (or_introl eq_refl)). congruence.
-      - apply IH. intros y Hy. apply Hats. right. exact Hy. }
-    apply DepthOK_after; [apply Hm|assumption].
+    apply DepthOK_after; [exact Hst|]. apply DepthOK_after; [apply Hm|assumption].
+  - rewrite sel_depth_inline.
+    change (s :: hd ++ mid ++ sub) with ([s] ++ hd ++ mid ++ sub).
+    apply PeakOK_after; [apply InOK_tok; congruence|].
+    apply PeakOK_after; [exact Hin|]. apply PeakOK_after; [apply Hm|assumption].
 Qed.
 
 (* ---- comments are invisible to the accounting, so stripping them changes nothing ---- *)
-Lemma lim_run_comment : forall fx L F t r s, pk t = KComment -> lim_run fx L F (t :: r) s = lim_run fx L F r s.
+Lemma lim_run_comment : forall fx cm L F t r s, pk t = KComment -> lim_run fx cm L F (t :: r) s = lim_run fx cm L F r s.
 Proof. intros. cbn [lim_run]. rewrite H. reflexivity. Qed.
 
 Lemma kind_eqb_eq : forall a b, kind_eqb a b = true <-> a = b.
@@ -406,23 +608,23 @@ Proof.
   - intros ->. apply N.eqb_refl.
 Qed.
 
-Lemma lim_run_cons_congr : forall fx L F t a b,
-  (forall s, lim_run fx L F a s = lim_run fx L F b s) ->
-  forall s, lim_run fx L F (t :: a) s = lim_run fx L F (t :: b) s.
+Lemma lim_run_cons_congr : forall fx cm L F t a b,
+  (forall s, lim_run fx cm L F a s = lim_run fx cm L F b s) ->
+  forall s, lim_run fx cm L F (t :: a) s = lim_run fx cm L F (t :: b) s.
 Proof.
-  intros fx L F t a b H s. cbn [lim_run]. destruct (pk t); try apply H.
+  intros fx cm L F t a b H s. cbn [lim_run]. destruct (pk t); try apply H.
   - destruct (is_def_kw (keyword_of (plit t)) && (negb fx || (l_local s <=? 0))); [apply H|].
     cbv zeta. destruct ((0 <? F) && (F <? (if (0 <? l_local s) && negb (l_spread s) then l_fields s + 1 else l_fields s))); [reflexivity|apply H].
-  - cbv zeta. destruct ((0 <? L) && (L <? l_global s + 1)); [reflexivity|apply H].
+  - cbv zeta. match goal with |- (if ?c then _ else _) = _ => destruct c end; [reflexivity|apply H].
 Qed.
 
-Lemma lim_run_strip : forall fx L F ts s, lim_run fx L F (strip ts) s = lim_run fx L F ts s.
+Lemma lim_run_strip : forall fx cm L F ts s, lim_run fx cm L F (strip ts) s = lim_run fx cm L F ts s.
 Proof.
-  intros fx L F ts. remember (length ts) as n eqn:Hn. revert ts Hn.
+  intros fx cm L F ts. remember (length ts) as n eqn:Hn. revert ts Hn.
   induction n as [n IH] using (well_founded_induction Wf_nat.lt_wf). intros ts Hn s.
   destruct ts as [|t r]; [reflexivity|]. cbn [strip].
   destruct (kind_eqb (pk t) KComment) eqn:E.
-  - apply kind_eqb_eq in E. rewrite (lim_run_comment _ _ _ _ _ _ E).
+  - apply kind_eqb_eq in E. rewrite (lim_run_comment _ _ _ _ _ _ _ E).
     destruct r as [|t2 r2]; [reflexivity|].
     apply lim_run_cons_congr. intro s'. apply (IH (length r2)); [subst n; simpl; lia|reflexivity].
   - apply lim_run_cons_congr. intro s'. apply (IH (length r)); [subst n; simpl; lia|reflexivity].
